@@ -1,8 +1,9 @@
 import GoJson.Drv.C16
+import GoJson.Drv.C17
 
 open GoJson.Drv
 
-def handlers : List (List String → Option String) := [C16.handle]
+def handlers : List (List String → Option String) := [C16.handle, C17.handle]
 
 def step (line : String) : String :=
   let ws := (line.splitOn " ").filter (· ≠ "")
